@@ -39,11 +39,19 @@ class Core:
     """A generated single-domain design ('sync') with shared signal objects, a child module and a memory."""
     def __init__(self, seed, with_mem=True):
         r = random.Random(seed)
-        self.prog = S.Programs(seed, W=3, nest=2, with_fsm=False).gen()
-        regs = [n for n, v in self.prog["signals"].items() if v[3] == "sync"]
-        self.reset_less = {n for n in regs if r.random() < 0.3}
-        self.sigs = {}
-        S.build(self.prog, define_domain=False, sigs=self.sigs, reset_less_signals=self.reset_less)   # creates the shared signals
+        gen = S.Programs(seed, W=3, nest=2, with_fsm=False)
+        for _ in range(50):
+            self.prog = gen.gen()
+            regs = [n for n, v in self.prog["signals"].items() if v[3] == "sync"]
+            self.reset_less = {n for n in regs if r.random() < 0.3}
+            self.sigs = {}
+            try:
+                with warnings.catch_warnings():
+                    warnings.simplefilter("ignore")
+                    S.build(self.prog, define_domain=False, sigs=self.sigs, reset_less_signals=self.reset_less)   # creates the shared signals
+                break
+            except (SyntaxError, TypeError, ValueError, IndexError, NameError):
+                continue      # not constructible: draw the next program of the same seeded stream
         self.with_mem = with_mem
         self.child_reg = Signal(3, name="child_reg", init=5)
         self.child_rl = Signal(2, name="child_rl", reset_less=True, init=1)
@@ -395,6 +403,12 @@ def edge_obligation(job):
     results = []
     status, detail, cex = PROVED, "", None
     nq = 0
+    # reference transitions of each core alone (posedge, synchronous reset), with reset low and high:
+    # computed once, over the same variable names the multi-domain design uses
+    rp = explore(lambda: [(rf.step(rst_value=0)[1], rf.step(rst_value=1)[1]) for rf in refs], max_paths=4)
+    if len(rp) != 1 or rp[0].exc is not None:
+        return [dict(base, status=ERROR, detail=f"reference step: {len(rp)} paths, exc={rp[0].exc!r}")]
+    ref_steps = rp[0].value
     for (oldv, newv) in combos:
         if status != PROVED:
             break
@@ -413,7 +427,7 @@ def edge_obligation(job):
             sim.engine.step_design()
             new = [{k: _sread(sim, c, k) for k, _ in c.state_elements()} for c in cores]
             steps = []
-            for i, (c, rf) in enumerate(zip(cores, refs)):
+            for i, c in enumerate(cores):
                 # reference transition of the core alone, under the reset level the domain sees after the event
                 rv = 0
                 if cds[i].rst is not None:
@@ -421,13 +435,9 @@ def edge_obligation(job):
                     for j, t in enumerate(toggles):
                         if t[0] == "rst" and t[1] is cds[i]:
                             rv = (newv >> j) & 1
-                if isinstance(rv, int):
-                    steps.append(rf.step(rst_value=rv)[1])
-                else:
-                    s0 = rf.step(rst_value=0)[1]
-                    s1 = rf.step(rst_value=1)[1]
-                    steps.append({k: sym_ite(rv != 0, s1[k], s0[k]) for k in s0})
-            resets = [rf.step(rst_value=1)[1] for rf in refs]
+                s0, s1 = ref_steps[i]
+                steps.append({k: sym_ite(rv != 0, s1[k], s0[k]) for k in s0})
+            resets = [ref_steps[i][1] for i in range(len(cores))]
             return old, new, steps, resets
         try:
             paths = explore(scen, max_paths=64)
@@ -617,7 +627,7 @@ def main(tier, seed):
     from vlib.pysym.selfcheck import selfcheck
     rep.extra["pysym_selfcheck_comparisons"] = selfcheck(seed)
     jobs = []
-    ncores = 12 if tier == "quick" else 120
+    ncores = 8 if tier == "quick" else 120
     stacks = [["E"], ["R"], ["N"], ["E", "E"], ["R", "R"], ["R", "E"], ["E", "R"], ["E", "N"], ["R", "N"]]
     if tier != "quick":
         stacks += [list(p) for p in itertools.product("ER", repeat=3)] + [["E", "R", "N"], ["R", "E", "N"]]
@@ -625,7 +635,7 @@ def main(tier, seed):
         for st in stacks:
             jobs.append({"id": f"law-{seed + k}-{''.join(st)}", "what": "law", "seed": seed * 1000 + k, "spec": st, "mem": k % 3 != 2})
     r = random.Random(seed)
-    nedge = 16 if tier == "quick" else 150
+    nedge = 12 if tier == "quick" else 150
     for k in range(nedge):
         nd = r.choice([1, 2, 2, 3])
         kinds = [r.randrange(len(DOMAIN_KINDS)) for _ in range(nd)]
